@@ -34,10 +34,10 @@ theorem take_seed (dv x : Bytes) (n : Nat) (h : dv.length = n) : (dv ++ x).take 
   subst h; simp
 
 theorem marshal_okp (o : Oracle) (k : Key) (c : Okp) (x : Bytes) (d : Option Bytes)
-    (hk : IsOkpKey k c x d) (E : OkpOK o c x d) : (marshal k).run o = .ok (okpObj o k c x d) := by
+    (hk : IsOkpKey k c x d) (E : OkpOK o c x d) : (marshalFrom k).run o = .ok (okpObj o k c x d) := by
   obtain ⟨hp, hq⟩ := hk
   have hx := E.xlen
-  unfold marshal
+  unfold marshalFrom
   simp only [PO.run_bind, run_encodeCommon, hp, hq]
   cases d with
   | none =>
